@@ -2,12 +2,19 @@
 Require Import Verif.Model.Base Verif.Model.Decision Verif.Model.Level Verif.Model.EntryPoint Verif.Model.Emit.
 Require Import Verif.Gen.EntryPoints Verif.Gen.Decisions.
 Require Import Verif.Proofs.LevelP Verif.Proofs.EmitP.
+Require Verif.Proofs.ModeP Verif.Model.DecisionRef.
 
 (* tie: the translation of Level.Enabled regenerated from the source equals the
    reference function, for all tables, modes and levels *)
 Theorem C01_gen_enabled : forall m d L r, Decisions.enabled m d L r = enabled_code m d L r.
 Proof. intros m d L r. reflexivity. Qed.
 Print Assumptions C01_gen_enabled.
+
+(* SetLevel as it is in /repo now: the level is stored, and Debug / Trace switch the process-wide
+   debug / trace mode on (never off) - the mode the admission rule reads *)
+Theorem C01_gen_set_level : forall dbg trc lvl, Decisions.set_level dbg trc lvl = DecisionRef.set_level_ref dbg trc lvl.
+Proof. exact Verif.Proofs.ModeP.gen_set_level. Qed.
+Print Assumptions C01_gen_set_level.
 
 (* the admission rule of the statement, for every registry (treated-as table),
    debug mode, logger level and severity - all of Z, built-in or not *)
